@@ -212,7 +212,8 @@ def check_word(word, cls, d, cap, pooling, dup_pattern=0, second_pass=False):
                 continue
             if all(hamming(a, b) <= d for a in umis for b in umis) and len({where.get(x) for x in names}) > 1:
                 viol[f'{pre}:fragments-with-all-umis-within-distance-split'] = {'names': names, 'umis': umis, 'd': d, 'partition': part}
-    if cls == 'plain' and cap is None:
+    if cls == 'plain' and cap is None and d == 0:
+        # (distance 0 only: with a distance > 0 first-match assignment can put a copy into the molecule of a neighbouring UMI)
         # plain fragments have no cut site; copies of one molecule that share their R1 anchor exactly (same key and UMI,
         # unclipped: variants base / other R2 end / sequencing error) match through that coordinate whatever else the
         # molecule already holds, so they can never be split
